@@ -69,11 +69,9 @@ class RecordsDatabase(Sized):
         Create a new empty list of values.
         """
         if direction is not None:
-            if key not in self._map:
-                self._map[key] = {}
-            self._map[key][direction] = []  # type: ignore
+            self._map.setdefault(key, {}).setdefault(direction, [])  # type: ignore
         else:
-            self._map[key] = []
+            self._map.setdefault(key, [])
 
     def add(self, value: Record, direction: Optional[Direction] = None) -> None:
         """
